@@ -104,6 +104,12 @@ CLAIMS.update({
         "DESIGN.md C18"),
 })
 
+CLAIMS["C19"] = (
+    "Only the record/stop bookkeeping step: ending a recording that has seen no key event (stop, re-record with the same id, record with another id) "
+    "never panics and saves an empty macro; decided for symbolic ids, elapsed ticks and truncation counts.",
+    "The replay-equals-typing clause, recording with events (FxHashSet / Vec with symbolic keys did not finish in the design phase), the size limit and the recursion guard are NOT decided. Partial claim.",
+    "DESIGN.md C19")
+
 NOT_APPLICABLE = {
     "C15": "live reload is file I/O + the whole parser on two configurations + TCP notifications + a relational comparison of two whole executions; no bounded kernel of it can be encoded for CBMC (DESIGN.md 'Not applicable')",
     "C16": "a relation between two complete parses of two program texts; the parser (heap, Rc<str>, hash maps) cannot be executed symbolically within reach (measured: sexpr::parse on 4 symbolic bytes does not finish in 25 min) and running it on concrete rewritten texts would be testing, not solver-based checking",
@@ -149,7 +155,7 @@ def main():
             "path": "/verif/engine/run.py",
             "serves_properties": [c["property_id"] for c in checks],
             "kind_free_text": "Kani 0.68 proof harnesses (kani::any inputs, #[kani::unwind], kani::cover vacuity witnesses) over the real private functions, "
-                              "CBMC 6.11 + CaDiCaL back end; JSON export parsed; counterexamples replayed with `cargo kani playback` in dev and release",
+                              "CBMC 6.11 + CaDiCaL back end; JSON export parsed; counterexamples replayed natively with `cargo kani playback` (dev profile)",
         }],
         "checks": checks,
         "not_applicable": na,
